@@ -114,13 +114,6 @@ func exprString(e ast.Node) string {
 	return b.String()
 }
 
-func leanBytes(s string) string {
-	parts := make([]string, len(s))
-	for i := 0; i < len(s); i++ {
-		parts[i] = strconv.Itoa(int(s[i]))
-	}
-	return "[" + strings.Join(parts, ", ") + "]"
-}
 
 func leanBytesList(xs []string) string {
 	q := make([]string, len(xs))
